@@ -2,6 +2,8 @@ package main
 
 import (
 	"flag"
+	"runtime/debug"
+	"runtime/pprof"
 	"fmt"
 	"os"
 	"strings"
@@ -16,6 +18,10 @@ func usage() {
 }
 
 func main() {
+	// the SSA program is a large, long-lived heap: collect rarely (memory is plentiful)
+	if os.Getenv("GOGC") == "" {
+		debug.SetGCPercent(150)
+	}
 	if len(os.Args) < 2 {
 		usage()
 	}
@@ -50,7 +56,13 @@ func cmdRun(args []string) {
 	verbose := fs.Bool("v", false, "verbose")
 	maxSecs := fs.Float64("maxsecs", 600, "time budget per harness")
 	tables := fs.String("tables", "", "host tables to build (comma separated)")
+	prof := fs.String("cpuprofile", "", "write cpu profile")
 	fs.Parse(args)
+	if *prof != "" {
+		f, _ := os.Create(*prof)
+		pprof.StartCPUProfile(f)
+		defer pprof.StopCPUProfile()
+	}
 	ov, _, err := prepareOverlay()
 	if err != nil {
 		fmt.Fprintln(os.Stderr, "overlay:", err)
